@@ -49,8 +49,14 @@ def cancel_case(draw):
   for c in cancels:
     timed[str(c["at"])] = [list(x) for x in draw(st.lists(st.tuples(st.integers(0, 4), st.integers(1, 40)),
                                                           max_size=5))]
+  creator = None
+  if draw(st.integers(0, 2)) == 0:
+    # another thread arms a further source at the very instant of the first cancellation
+    creator = {"kind": draw(st.sampled_from(["fifo", "lifo"])), "period": draw(st.sampled_from([0.5, 0.25, 1.0])),
+               "times": draw(st.sampled_from([0, 0, 3])), "deferred": draw(st.sampled_from([True, False])),
+               "sig": draw(st.sampled_from(SIGNAMES)), "count": draw(st.integers(1, 3))}
   return {"sources": sources, "cancels": cancels, "schedule": [list(x) for x in draw(schedule_st)],
-          "timed_schedule": timed, "late": late, "nested": draw(st.integers(0, 2)) == 0}
+          "timed_schedule": timed, "late": late, "nested": draw(st.integers(0, 2)) == 0, "creator": creator}
 
 
 class C11(Prop):
@@ -60,7 +66,8 @@ class C11(Prop):
   rule = ("Generated sets of 1-4 timed sources (fifo/lifo, periods from {0.25,0.5,0.75,1.0}, times "
           "in {0,1,2,3,5}, deferred or not, signals from three names so that sources share names - in a third of the "
           "cases names that contain one another (VT, VT_X, X_VT_X) - optionally one more source armed right after the "
-          "first cancellation returned, which a later cancellation may aim at) and "
+          "first cancellation returned, which a later cancellation may aim at, and optionally 1-3 sources armed by ANOTHER "
+          "thread at the very instant of the first cancellation) and "
           "1-2 cancellations issued by the body at generated virtual instants that are multiples of "
           "0.25 (so they frequently coincide with a firing, leaving the interleaving to the "
           "generated schedule): cancel_event(id) or cancel_events(e), where the id / event is the "
@@ -128,6 +135,22 @@ class C11(Prop):
                                                         deferred=src["deferred"]))
       info["t0"] = t0
       allsrc = list(case["sources"])
+      created = []          # (index, arm time) of the sources the creator thread armed
+      if case.get("creator") and case["cancels"]:
+        cr_ = case["creator"]
+        base_index = len(case["sources"]) + (1 if case.get("late") else 0)
+
+        def creator_thread():
+          w.ao.time.sleep(case["cancels"][0]["at"])
+          for j in range(cr_.get("count", 1)):
+            e2 = Event(signal=signame(case, cr_["sig"]), payload=base_index + j)
+            created.append((base_index + j, s.now))
+            cid = getattr(chart, "post_" + cr_["kind"])(e2, period=cr_["period"], times=cr_["times"],
+                                                        deferred=cr_["deferred"])
+            info.setdefault("created_ids", []).append(cid)
+        cth = w.ao.Thread(target=creator_thread, name="vfcreator")
+        cth.start()
+      info["created"] = created
       for ci, c in enumerate(case["cancels"]):
         s.wake_at(t0 + c["at"])      # competes with the sources that fire at this instant
         if c["target"] >= len(allsrc):
@@ -161,7 +184,7 @@ class C11(Prop):
       info["horizon"] = horizon
       s.sleep_until(horizon)
       info["posts"] = [dict(p) for p in rec.posts]
-      for i in ids:
+      for i in ids + info.get("created_ids", []):
         chart.cancel_event(i)
       for name in SIGNAMES:
         chart.cancel_events(Event(signal=signame(case, name)))
@@ -190,7 +213,8 @@ class C11(Prop):
           nontrivial = True
     stats.case(case, nontrivial, ["cancel_by_%s_%s" % (c["by"], c["form"]) for c in case["cancels"]] +
                (["late_source"] if len(srcs) > len(case["sources"]) else []) +
-               (["nested_names"] if case.get("nested") else []))
+               (["nested_names"] if case.get("nested") else []) +
+               (["source_armed_by_another_thread_during_cancel"] if info.get("created") else []))
     for k, src in enumerate(srcs):
       mine = [p for p in info["posts"] if p["id"] == k and p["sig"] == signame(case, src["sig"])]
       if k in cancelled:
@@ -218,6 +242,18 @@ class C11(Prop):
         if got != want:
           raise PropertyViolation("source %d (%s) was not cancelled but posted at %s, expected %s; cancels: %s" % (
             k, src["sig"], got, want, case["cancels"]), "C11:other-source-disturbed")
+    # the sources another thread armed while the first cancellation was under way: unless a
+    # cancellation by name could have met them, they run on schedule from the moment they were armed
+    cr_ = case.get("creator")
+    named = set(srcs[c["target"]]["sig"] if c["target"] < len(srcs) else None
+                for c in case["cancels"] if c["by"] == "name")
+    if cr_ and cr_["sig"] not in named:
+      for k, armed_at in info.get("created", []):
+        got = [p["now"] for p in info["posts"] if p["id"] == k and p["sig"] == signame(case, cr_["sig"])]
+        want = expected_instants(armed_at, cr_["period"], cr_["times"], cr_["deferred"], info["horizon"])
+        if got != want:
+          raise PropertyViolation("a source armed by another thread at t=%s, while a cancellation was under way, posted "
+                                  "at %s, expected %s" % (armed_at, got, want), "C11:other-source-disturbed")
 
 
 PROP = C11
